@@ -39,6 +39,9 @@ type RunConfig struct {
 
 	// Down lists servers that are not started at the beginning.
 	Down []int
+	// Blackhole lists servers whose address swallows dials while nothing listens (instead of refusing).
+	Blackhole  []int
+	SiteFaults bool
 }
 
 // Program is the workload and fault plan of a run; explicit data so that it can
@@ -72,6 +75,7 @@ type Op struct {
 	Plans      map[int]*HandlerPlan // by server index; missing = default (reply at once)
 	Observers  []ObserverSpec
 	CancelW    float64 // relative weight of the cancel action (ctx == cancel)
+	PadKB      int     // payload padding in KiB (flow-control scenarios)
 	// get / wait: index of an earlier call op in the same thread
 	Ref int
 	// close: number of concurrent Close invocations (1 or 2)
@@ -181,6 +185,7 @@ type Call struct {
 	qfBusy   bool
 	qfMu     sync.Mutex
 	PostClose bool // invoked after Close of its manager returned
+	IsProbe   bool
 	nodeSrv   map[uint32]int
 	Observed []Observation
 }
